@@ -476,7 +476,53 @@ fn user_values_learned(run: &Run) {
     run.require_label("user-value-learned-and-retyped", 300);
 }
 
+/// A learned choice on display, then ANY of the 32 marks: word (emoticons with their literal, names with emoji, plain
+/// words) x every candidate index learned x every mark typed behind the re-typed word with the front-end's selection
+/// byte.  The list shrinks or changes under the mark; the preselected index must follow it.
+fn learned_choice_then_every_mark(run: &Run) {
+    let words = ["xD", ":)", "smile", "cool", "a", "ami", "sesh", "8D", "help", "kotha", "+1", "<3"];
+    let marks: Vec<char> = "-]~!@#%&*()_=+[{}'\";<>/?|.,:`^$\\".chars().collect();
+    let items: Vec<(usize, usize)> = (0..words.len()).flat_map(|w| (0..3usize).map(move |o| (w, o))).collect();
+    run.exhaustive(
+        "learned-choice-on-display-then-every-mark",
+        &items,
+        |_| (),
+        |&(wi, oi), st, _| {
+            let word = words[wi];
+            let opts = Opts::parse(["s", "se", "sq"][oi]);
+            let sb = Sandbox::new();
+            let case0 = || json!({"opts": opts.letters(), "learned_then_mark": {"word": word}});
+            let pf0 = |p: crate::driver::PanicInfo| Failure::new(panic_kind(&p), p.to_string(), case0());
+            let ctx = Ctx::new(opts, &sb).map_err(pf0)?;
+            let n = match ctx.type_frontend(word).map_err(pf0)? {
+                Some(r) if !r.lonely => r.cands.len(),
+                _ => return Ok(()),
+            };
+            ctx.finish().map_err(pf0)?;
+            for idx in 0..n.min(8) {
+                ctx.type_frontend(word).map_err(pf0)?;
+                ctx.commit(idx).map_err(pf0)?;
+                for &mk in &marks {
+                    let case = || json!({"opts": opts.letters(), "learned_then_mark": {"word": word, "index": idx, "mark": mk.to_string()}});
+                    let pf = |p: crate::driver::PanicInfo| Failure::new(panic_kind(&p), p.to_string(), case());
+                    let r = ctx.type_frontend(word).map_err(pf)?.unwrap();
+                    let sel = if r.lonely { 0 } else { r.sel.min(255) as u8 };
+                    let r2 = ctx.ch(mk, sel).map_err(pf)?;
+                    st.evals(1);
+                    let expected = format!("{word}{mk}");
+                    check_suggestion(run, st, &r2, &opts, Some(mk), sel, Some(&expected), &case)?;
+                    ctx.finish().map_err(pf)?;
+                }
+            }
+            st.label("learned-choice-then-every-mark");
+            st.nontrivial(hash_of(&("learned-then-mark", wi, oi)), || json!({"opts": opts.letters(), "word": word, "indices_learned": n.min(8)}));
+            Ok(())
+        },
+    );
+}
+
 pub fn run(run: &Run) {
+    learned_choice_then_every_mark(run);
     fixed_short_sequences(run);
     learned_low_rank_then_suffix(run);
     user_values_learned(run);
@@ -501,6 +547,19 @@ pub fn run(run: &Run) {
 pub fn replay(run: &Run, case: &Value) -> Result<(), Failure> {
     let mut st = Stats::new();
     let opts = Opts::parse(case["opts"].as_str().unwrap_or_default());
+    if let Some(l) = case.get("learned_then_mark") {
+        let pf = |p: crate::driver::PanicInfo| Failure::new(panic_kind(&p), p.to_string(), case.clone());
+        let (word, idx) = (l["word"].as_str().unwrap_or_default(), l["index"].as_u64().unwrap_or(0) as usize);
+        let mk = l["mark"].as_str().and_then(|m| m.chars().next()).unwrap_or('*');
+        let sb = Sandbox::new();
+        let ctx = Ctx::new(opts, &sb).map_err(pf)?;
+        ctx.type_frontend(word).map_err(pf)?;
+        ctx.commit(idx).map_err(pf)?;
+        let r = ctx.type_frontend(word).map_err(pf)?.unwrap();
+        let sel = if r.lonely { 0 } else { r.sel.min(255) as u8 };
+        let r2 = ctx.ch(mk, sel).map_err(pf)?;
+        return check_suggestion(run, &mut st, &r2, &opts, Some(mk), sel, Some(&format!("{word}{mk}")), &|| case.clone());
+    }
     if let Some(u) = case.get("user_value_learned") {
         let pf = |p: crate::driver::PanicInfo| Failure::new(panic_kind(&p), p.to_string(), case.clone());
         let (word, val, idx) = (u["word"].as_str().unwrap_or_default(), u["value"].as_str().unwrap_or_default(), u["index"].as_u64().unwrap_or(0) as usize);
